@@ -35,33 +35,66 @@ def run(ctx):
         ctx.ob("R18a", "next_element:removed-skipped", ok,
                "every Some(_) is reachable only when is_removed_index(slot) is false" if ok else
                "next_element can return a removed slot", b.where)
-        # sign chosen by is_valid_edge: the Neg'd value is returned only on its true edge
-        ok = bool(ve and len(somes) >= 2)
+        # sign chosen by is_valid_edge: wherever the returned id is selected, the negated slot is selected only on the
+        # true edge of is_valid_edge and the plain slot only on its false edge (one `Some` per branch, or one `Some(if ..)`)
+        def sign_of(op, depth=0):
+            pl = cfg.op_place(op)
+            if pl is None or depth > 8:
+                return "pos"
+            ds = [d for d in cfg.defs(b).get(pl[0], []) if d[0] != "partial"]
+            if len(ds) != 1:
+                return "pos"
+            d = ds[0]
+            if d[0] == "assign":
+                if d[2]["k"] == "un" and d[2]["op"] == "Neg":
+                    return "neg"
+                if d[2]["k"] in ("use", "cast"):
+                    return sign_of(d[2]["o"], depth + 1)
+                if d[2]["k"] == "ref":
+                    return sign_of({"cp": d[2]["p"]}, depth + 1)
+                return "pos"
+            if d[0] == "call" and d[2]["a"] and (cfg.callee(d[2]) or "").endswith(("::from", "::into", "::clone")):
+                return sign_of(d[2]["a"][0], depth + 1)
+            return "pos"
+
+        def selections(op, depth=0):
+            """[(block where this alternative is chosen, sign)] for the payload operand of a Some"""
+            pl = cfg.op_place(op)
+            if pl is None:
+                return []
+            ds = [d for d in cfg.defs(b).get(pl[0], []) if d[0] != "partial"]
+            if len(ds) == 1 and ds[0][0] == "assign" and ds[0][2]["k"] == "use" and depth < 4 and b.local_name(pl[0]) is None:
+                inner = selections(ds[0][2]["o"], depth + 1)
+                if len(inner) > 1:
+                    return inner
+            out = []
+            for d in ds:
+                if d[0] == "assign":
+                    sg = "neg" if (d[2]["k"] == "un" and d[2]["op"] == "Neg") else (
+                        sign_of(d[2]["o"]) if d[2]["k"] in ("use", "cast") else "pos")
+                else:
+                    sg = sign_of(d[2]["a"][0]) if d[2]["a"] and (cfg.callee(d[2]) or "").endswith(("::from", "::into", "::clone")) else "pos"
+                out.append((d[1], sg))
+            return out
+        ok = bool(ve and somes)
+        detail = ""
         if ok:
             sws = []
             for i, t in ve:
                 sws += cfg.bool_switches(b, cfg.derived_locals(b, [t["d"][0]], through=through))
-            negs = {s["l"][0] for bi, s in cfg.assigns(b) if s["r"]["k"] == "un" and s["r"]["op"] == "Neg" and len(s["l"]) == 1}
-            neg_some = []
-            pos_some = []
-            for sb in somes:
-                # which Some uses a negated value?
-                uses_neg = False
-                for bi, s in cfg.assigns(b):
-                    if bi == sb and s["l"] == [0]:
-                        for o in s["r"]["ops"]:
-                            org = cfg.op_origin(b, o)
-                            dc = cfg.def_call(b, org[0]) if org else None
-                            if dc and dc[1]["a"]:
-                                a0 = cfg.op_origin(b, dc[1]["a"][0])
-                                if a0 and a0[0] in negs:
-                                    uses_neg = True
-                (neg_some if uses_neg else pos_some).append(sb)
-            ok = bool(sws and neg_some and pos_some) and all(
-                cfg.find_path(b, [0], [s], removed_edges=[sws[0]["true_edge"]]) is None for s in neg_some) and all(
-                cfg.find_path(b, [0], [s], removed_edges=[sws[0]["false_edge"]]) is None for s in pos_some)
+            sel = []
+            for bi, s_ in cfg.assigns(b):
+                if bi in somes and s_["l"] == [0] and s_["r"]["k"] == "agg":
+                    for o in s_["r"]["ops"]:
+                        sel += selections(o)
+            negs = [blk for blk, sg in sel if sg == "neg"]
+            poss = [blk for blk, sg in sel if sg == "pos"]
+            ok = bool(sws and negs and poss) and all(
+                cfg.find_path(b, [0], [x], removed_edges=[sws[0]["true_edge"]]) is None for x in negs) and all(
+                cfg.find_path(b, [0], [x], removed_edges=[sws[0]["false_edge"]]) is None for x in poss)
+            detail = "selections %s" % sorted(set(sel))
         ctx.ob("R18a", "next_element:sign", ok, "negative id iff is_valid_edge(-i), positive otherwise" if ok else
-               "next_element no longer chooses the sign of the returned id by is_valid_edge", b.where)
+               "next_element no longer chooses the sign of the returned id by is_valid_edge (%s)" % detail, b.where)
         # range: start = index.as_u64() + 1, end = capacity
         start_ok = False
         for bi, s in cfg.assigns(b):
